@@ -75,6 +75,7 @@ def cases(draw):
         # what invalid pixels hold: NaN, the usual sentinel, or a finite value close to the valid disparities (any
         # invalid_disparity may be configured): it must never enter a median or a weighted mean
         "invalid_value": draw(st.sampled_from(["NaN", -9999, -9999, 0, 3.5, -2.25])),
+        "float64": draw(st.integers(0, 5)) == 0,
         "flagseed": draw(st.integers(0, 1000)),
     }
     if method == "bilateral":
@@ -154,6 +155,9 @@ def body(ctx: Ctx, p: dict) -> None:
     else:
         cfg = {"filter_method": method, "sigma_space": float(p["sigma_space"]), "sigma_color": float(p["sigma_color"])}
     ds = build.disparity_dataset(d, mask, -8, 8, 0, conf)
+    if p.get("float64"):
+        # a map the caller built or loaded in double precision
+        ds["disparity_map"] = ds["disparity_map"].astype(np.float64)
     before = build.snapshot(ds)
     flt = pfilter.AbstractFilter(cfg=dict(cfg), image_shape=(ny, nx), step=1)
     flt.filter_disparity(ds)
